@@ -50,7 +50,7 @@ func (p *Program) programObligations(id string) []*Obligation {
 		}
 		return o
 	}
-	if id == "C16" || id == "C04" {
+	if id == "C16" || id == "C04" || id == "C01" {
 		// pool type invariants are preserved: the fields they mention are stored to only by the constructor
 		for _, pi := range p.spec.Pools {
 			var g *ssa.Global
